@@ -40,7 +40,8 @@ Lemma reg_get_set r k c s :
 Proof.
   induction r as [|[k' c'] t IH]; simpl.
   - reflexivity.
-  - destruct (str_eqb k' k) eqn:Ek; simpl.
+  - change later_wins with true. cbv iota.
+    destruct (str_eqb k' k) eqn:Ek; simpl.
     + apply str_eqb_eq in Ek. subst k'. destruct (str_eqb k s); reflexivity.
     + rewrite IH. destruct (str_eqb k' s) eqn:E1; [|reflexivity].
       destruct (str_eqb k s) eqn:E2; [|reflexivity].
